@@ -24,7 +24,7 @@ REQUIRED_COUNTERS = ['encodings_compared', 'omitted_fields_observed', 'redacted_
 
 
 def time_limit(tier):
-    return 900 if tier == 'quick' else 5400
+    return common.default_limit(tier)
 
 
 def budget(tier):
